@@ -125,6 +125,39 @@ pub fn sort_cases(n : usize, random : usize, seed : u64) -> Vec<Value>
 /* ------------------------------------------------------------------ C13: rule identity */
 fn rule_json(r : &(Vec<String>, Vec<String>, Vec<String>)) -> Value { json!({"tg" : r.0, "src" : r.1, "cl" : r.2}) }
 
+/*  every rule over a small universe of strings is ticketed; every pair of distinct rules that share a ticket and every pair
+    inside one canonical class is emitted (plus the random pairs below): exhaustive for collisions, sampled for the rest */
+pub fn ident_exhaustive() -> Vec<Value>
+{
+    let toks = ["a", "b", "c", "a:", "b:", ":a", "a b"];
+    let mut lists : Vec<Vec<String>> = vec![];
+    for a in toks.iter() { lists.push(vec![a.to_string()]); for b in toks.iter() { if a != b { lists.push(vec![a.to_string(), b.to_string()]); } } }
+    let cls : Vec<Vec<String>> = vec![vec!["a".to_string()], vec!["a:".to_string()], vec!["a".to_string(), "b".to_string()], vec!["b".to_string(), "a".to_string()], vec!["a b".to_string()], vec![":a".to_string(), "b".to_string()]];
+    let mut by_ticket : std::collections::BTreeMap<String, Vec<(Vec<String>, Vec<String>, Vec<String>)>> = std::collections::BTreeMap::new();
+    let mut by_canon : std::collections::BTreeMap<(Vec<String>, Vec<String>, Vec<String>), Vec<(Vec<String>, Vec<String>, Vec<String>)>> = std::collections::BTreeMap::new();
+    for t in lists.iter() { for s in lists.iter() { for c in cls.iter()
+    {
+        let r = (t.clone(), s.clone(), c.clone());
+        let tk = Rule::new(t.clone(), s.clone(), c.clone()).get_ticket().human_readable();
+        by_ticket.entry(tk).or_default().push(r.clone());
+        let mut ts = t.clone(); ts.sort(); let mut ss = s.clone(); ss.sort();
+        by_canon.entry((ts, ss, c.clone())).or_default().push(r);
+    } } }
+    let mut out = vec![]; let mut k = 0;
+    for (_, group) in by_ticket.iter() { for i in 0..group.len() { for j in (i + 1)..group.len()
+    {
+        k += 1; out.push(json!({"id" : format!("x{}", k), "r1" : rule_json(&group[i]), "r2" : rule_json(&group[j]), "same" : true}));
+    } } }
+    for (_, group) in by_canon.iter() { for i in 0..group.len() { for j in (i + 1)..group.len()
+    {
+        let same = Rule::new(group[i].0.clone(), group[i].1.clone(), group[i].2.clone()).get_ticket().human_readable()
+                == Rule::new(group[j].0.clone(), group[j].1.clone(), group[j].2.clone()).get_ticket().human_readable();
+        if !same { k += 1; out.push(json!({"id" : format!("x{}", k), "r1" : rule_json(&group[i]), "r2" : rule_json(&group[j]), "same" : false})); }
+    } } }
+    out.push(json!({"id" : "xcount", "r1" : rule_json(&(vec!["a".to_string()], vec!["a".to_string()], vec!["a".to_string()])), "r2" : rule_json(&(vec!["a".to_string()], vec!["a".to_string()], vec!["a".to_string()])), "same" : true, "rules_enumerated" : lists.len() * lists.len() * cls.len()}));
+    out
+}
+
 pub fn ident_cases(random : usize, seed : u64) -> Vec<Value>
 {
     let toks = ["a", "b", "a:", ": a", "a b", ";", "ab"];
@@ -230,7 +263,7 @@ pub fn parse_cases(maxlen : usize, random : usize, seed : u64) -> Vec<Value>
 {
     let mut out = vec![];
     /* every sequence of at most maxlen lines over a 7-letter line alphabet */
-    let alpha = ["", ":", "a", "b", "\ta", "\t", "\t\tb"];
+    let alpha = ["", ":", "a", "b", "\ta", "\t", "\t\tb", " "];
     let mut seqs : Vec<Vec<usize>> = vec![vec![]];
     let mut frontier : Vec<Vec<usize>> = vec![vec![]];
     for _ in 0..maxlen
@@ -247,7 +280,7 @@ pub fn parse_cases(maxlen : usize, random : usize, seed : u64) -> Vec<Value>
     }
     /* rendered random rule sets, their corruptions, token soup */
     let mut rng = Rng::new(seed);
-    let names = ["a", "b c", "d:e", "f", "g\r", "h\u{e9}", "src", "x.y"];
+    let names = ["a", "b c", "d:e", "f", "g\r", "h\u{e9}", "src", "x.y", " ", "\r", "\u{a0}"];
     for r in 0..random
     {
         let nr = 1 + rng.below(3);
